@@ -1,5 +1,5 @@
 CONSTANTS
-  States = {"empty", "populated", "lottery", "short", "long", "afterlong"}
+  States = {"populated", "short"}
   TxTos = {"absent", "zero", "self", "known", "stranger", "contract"}
   TxPayloads = {"empty", "garbage", "valid"}
   TxAmounts = {"nil", "zero", "pos"}
